@@ -53,7 +53,9 @@ type StructField struct {
 // JSONName returns the field name used by Go json package,
 // that is, taking into account the json struct tag.
 func (st StructField) JSONName() string {
-	if name := st.Tag.Get("json"); name != "" {
+	// the tag is "<name>,<options>": only the name part is the key,
+	// and an empty name (json:",omitempty") means the Go field name
+	if name, _, _ := strings.Cut(st.Tag.Get("json"), ","); name != "" {
 		return name
 	}
 	return st.Field.Name()
